@@ -58,6 +58,20 @@ def oracle(tr):
     return bad
 
 
+def oracle_fields(tr):
+    """header hygiene alone, for histories in which messages are held and delivered later (the sender is then not the
+    connection acting at that step)"""
+    bad = []
+    for i, (per, closed) in enumerate(tr.steps):
+        for to, lines in per.items():
+            for l in lines:
+                if fld(l, "uk") not in ("-", None):
+                    bad.append((None, "step %d: unknown header field(s) %s reached connection %d" % (i, fld(l, "uk"), to)))
+                if fld(l, "ci") not in ("-", None):
+                    bad.append((None, "step %d: CONTAINER_INSTANCE reached connection %d" % (i, to)))
+    return bad
+
+
 def run(ctx):
     check.lean_obligations(ctx, MODULE, THEOREMS)
     findings = {e["class"]: e for e in check.load_findings("C03") if e.get("status") == "known"}
@@ -65,7 +79,20 @@ def run(ctx):
     buscheck.run_histories(ctx, n, 70 if ctx.quick() else 110, oracle, gen_kw={"weights": WEIGHTS, "max_conns": 5},
                            findings=findings, label="forged-headers")
     buscheck.run_histories(ctx, n // 3, 60, oracle, gen_kw={"max_conns": 4}, findings=findings, seed_salt=1, label="mixed")
+    # every way a message can leave the bus: also as a copy for a monitor (captured whether or not it is relayed) ...
+    buscheck.run_histories(ctx, n // 2, 70, oracle_fields, gen_kw={"weights": dict(WEIGHTS, monitor=4), "max_conns": 5}, findings=findings,
+                           seed_salt=2, label="forged-headers-with-monitors")
+    # ... and, held for a service that is being started, when the service has taken the name
+    from .. import actcheck, actdiff, actgen
+    actcheck.run_histories(ctx, n // 2, 60, actdiff.Svc(actgen.DEFAULT_FILES), gen_kw={"max_conns": 4, "weights": {"forged": 22, "call": 10, "request": 18}},
+                           seed_salt=3, label="forged-headers-held-for-activation", oracle_fn=oracle_fields)
 
 
 def replay(path):
+    import json
+    with open(path) as f:
+        d = json.load(f)
+    if (d.get("replay") or d).get("kind") == "act-history":
+        from .. import actcheck
+        return actcheck.replay_history(path, oracle_fn=oracle_fields, prop="C03")
     return buscheck.replay_history(path, oracle, "C03")
